@@ -13,22 +13,22 @@ OPS = [
     {'op': 'fn', 'path': 'value_too_short', 'ret': 'r', 'attrs': ['#[verifier::external_body]']},
     {'op': 'fn', 'path': 'get_len_string', 'ret': 'r',
      'spec': '''    ensures
-        ({ let b = buf_seq(old(data)); let ok = b.len() >= 2 && b.len() >= 2 + be16(b) as int;
+        c04(({ let b = buf_seq(old(data)); let ok = b.len() >= 2 && b.len() >= 2 + be16(b) as int;
            &&& r is Ok <==> ok
-           &&& ok ==> (r->Ok_0)@ == lossy(b.skip(2).take(be16(b) as int)) && buf_seq(final(data)) == b.skip(2).skip(be16(b) as int)
-           &&& ok ==> utf8((r->Ok_0)@).len() <= 3 * 0xffff
-        }),''',
+           &&& ok ==> (r->Ok_0)@ == lossy(b.skip(2).take(be16(b) as int)) && buf_seq(final(data)) =~= b.skip(2).skip(be16(b) as int)
+        })),
+        c02(r is Ok ==> utf8((r->Ok_0)@).len() <= 3 * 0xffff),''',
      'proofs': [{'at_start': True, 'text': 'broadcast use crate::verif_ext::axiom_lossy_len;'}]},
     {'op': 'fn', 'path': 'IppValue::to_tag', 'ret': 'r',
-     'spec': '    ensures r == spec_tag(aval(*self)),\n    decreases (if *self is Array || *self is Collection { 1int } else { 0int }), *self,' ,
+     'spec': '    ensures c03(r == spec_tag(aval(*self))),\n    decreases (if *self is Array || *self is Collection { 1int } else { 0int }), *self,' ,
      'proofs': [{'at_start': True, 'text': 'broadcast use vstd::std_specs::vec::axiom_vec_index_decreases;'}],
      'closures': {0: {'expect_params': '|v|', 'optional': True, 'types': {'v': '&IppValue'}, 'ret': 't: u8',
                       'spec': '    requires decreases_to!(*self => *v),\n    ensures t == spec_tag(aval(*v))'}}},
     {'op': 'fn', 'path': 'IppValue::parse', 'ret': 'r',
      'spec': '''    ensures
-        r is Ok ==> is_scalar(r->Ok_0) && Some(aval_scalar(r->Ok_0)) == spec_val_dec(value_tag, buf_seq(&data)),
-        r is Err ==> spec_val_dec(value_tag, buf_seq(&data)) is None,
-        r is Ok ==> size_ok(aval(r->Ok_0)),''',
+        c04(r is Ok ==> is_scalar(r->Ok_0) && Some(aval_scalar(r->Ok_0)) == spec_val_dec(value_tag, buf_seq(&data))),
+        c04(r is Err ==> spec_val_dec(value_tag, buf_seq(&data)) is None),
+        c02(r is Ok ==> size_ok(aval(r->Ok_0))),''',
      'proofs': [{'before': 'let ipp_tag', 'text': 'proof { axiom_value_tag_from(value_tag as int); }'}]},
     {'op': 'fn', 'path': 'IppValue::to_bytes', 'ret': 'r',
      'loops': {1: {'iter_name': 'it', 'spec': '''
@@ -55,7 +55,7 @@ OPS = [
                         vstd::map::axiom_map_index_decreases(m0@, k);
                     }'''}],
      'spec': '''    requires size_ok(aval(*self)),
-    ensures wf16(aval(*self)) ==> buf_seq(&r) == spec_val_enc(aval(*self)),
+    ensures c03(wf16(aval(*self)) ==> buf_seq(&r) =~= spec_val_enc(aval(*self))),
     decreases (if *self is Array || *self is Collection { 1int } else { 0int }), *self,''',
      'w8': [{'loop': 0, 'kind': 'enumerate', 'spec': '''
         invariant
